@@ -12,7 +12,7 @@ from scipy.sparse.csgraph import connected_components
 
 from .. import io
 from ..extern.polytri import polytri
-from .base_classes import Shape3D
+from .base_classes import Shape3D, _require_positive
 from .convex_polygon import ConvexPolygon, _is_convex
 from .polygon import Polygon, _is_simple
 from .sphere import Sphere
@@ -431,6 +431,7 @@ class Polyhedron(Shape3D):
 
     @volume.setter
     def volume(self, value):
+        _require_positive(value, "Volume")
         scale = (value / self.volume) ** (1 / 3)
         self._rescale(scale)
 
@@ -684,6 +685,7 @@ class Polyhedron(Shape3D):
 
     @circumsphere_radius.setter
     def circumsphere_radius(self, value):
+        _require_positive(value, "The radius")
         self._rescale(value / self.circumsphere_radius)
 
     @property
@@ -721,6 +723,7 @@ class Polyhedron(Shape3D):
 
     @insphere_radius.setter
     def insphere_radius(self, value):
+        _require_positive(value, "The radius")
         self._rescale(value / self.insphere_radius)
 
     def get_dihedral(self, a, b):
